@@ -988,7 +988,27 @@ func (g *gctx) genStmt1(lv int, out *[]string) bool {
 			g.loops = append(g.loops, "!"+label)
 			g.genStmts(lv+1, 1+g.r.Intn(3), out)
 			g.loops = g.loops[:len(g.loops)-1]
-			*out = append(*out, ind(lv+1)+"break"+dot)
+			// the last statement: usually this loop's own `break` (the trivial
+			// do-while(0) form); sometimes a jump to an ENCLOSING labelled loop
+			// (`break.outer` / `continue.outer`), which must not be mistaken for it
+			last := "break" + dot
+			var outer []string
+			for _, l := range g.loops {
+				if strings.TrimPrefix(l, "!") != "" {
+					outer = append(outer, l)
+				}
+			}
+			if len(outer) > 0 && g.r.Intn(3) == 0 {
+				l := outer[g.r.Intn(len(outer))]
+				if !strings.HasPrefix(l, "!") && g.r.Bool() {
+					last = "continue." + l
+					g.count("stmt:while-true-ends-in-outer-continue")
+				} else {
+					last = "break." + strings.TrimPrefix(l, "!")
+					g.count("stmt:while-true-ends-in-outer-break")
+				}
+			}
+			*out = append(*out, ind(lv+1)+last)
 			emit("}" + dot)
 			g.count("stmt:while-true")
 			g.m.hasLoop = true
